@@ -26,6 +26,14 @@ fn main() {
         _ => Tier::Quick,
     };
     let mut replay: Option<String> = None;
+    if id == "C17" && args.get(2).map(|s| s.as_str()) == Some("--worker") {
+        let seed: u64 = args[3].parse().unwrap_or(1);
+        let lane: u64 = args[4].parse().unwrap_or(0);
+        let count: u32 = args[5].parse().unwrap_or(1);
+        let code = props::c17::worker(seed, lane, count, &args[6]);
+        env::cleanup_scratch();
+        std::process::exit(code);
+    }
     let mut i = 2;
     while i < args.len() {
         match args[i].as_str() {
